@@ -92,9 +92,15 @@ def theorems_of(prop):
     if not os.path.exists(p):
         return [], None
     src = strip_comments(open(p).read())
-    ns = re.findall(r'^namespace\s+(\S+)', src, re.M)
-    prefix = (ns[0] + '.') if ns else ''
-    return [prefix + n for n in re.findall(r'^theorem\s+([^\s:(\[{]+)', src, re.M)], p
+    out, stack = [], []
+    for line in src.splitlines():
+        m = re.match(r'^namespace\s+(\S+)', line)
+        if m: stack.append(m.group(1)); continue
+        m = re.match(r'^end\s+(\S+)', line)
+        if m and stack and stack[-1] == m.group(1): stack.pop(); continue
+        m = re.match(r'^theorem\s+([^\s:(\[{]+)', line)
+        if m: out.append('.'.join(stack + [m.group(1)]))
+    return out, p
 
 
 def transitive_lean_files(root_mod):
